@@ -15,6 +15,7 @@ param = {'kw', 'kind': 'input', 'node'} | {'kw','kind':'switch','sw','cases':[[l
 outcome = 'ok' | 'none' | 'falsy' | 'label:<l>' | 'raise:E1|E2|E3|B1'
 """
 import hashlib
+import zlib
 import json
 
 from . import runtime as rtm
@@ -93,7 +94,7 @@ def build_classes(prog, rt):
                 ann[p['kw']] = SwitchCase(
                     switch=classes[p['sw']],
                     cases=[(lab, classes[c]) for lab, c in p['cases']],
-                    name=p.get('name'),
+                    name=None if p.get('unnamed') else p.get('name'),      # unnamed: the builder invents the id
                 )
             elif p['kind'] == 'oneof':
                 ann[p['kw']] = InputOneOf([classes[c] for c in p['cands']])
@@ -141,6 +142,9 @@ def build_classes(prog, rt):
             attrs['delay'] = n['delay']
         if n['exceptions'] is not None:
             attrs['exceptions'] = tuple(rtm.EXC[x] for x in n['exceptions'])
+            if len(n['exceptions']) == 1 and zlib.crc32(nid.encode()) % 2 == 1:
+                # a single class instead of a tuple: valid for `except`, and what half of the users write
+                attrs['exceptions'] = rtm.EXC[n['exceptions'][0]]
         if n['use_default']:
             attrs['use_default'] = True
         base = RecurrentProcessor if nid in dests else ProcessorBase
@@ -204,6 +208,15 @@ def make_collab_classes(rt, prog):
         async def on_node_complete(self, ctx, node_id, error):  # noqa: ANN001
             await rt.collab_call('ev2', rtm.short(node_id))
 
+    class EventsPartial:
+        """a manager that is interested in the pipeline-level events only (registered FIRST when prog.collab has 'evp'):
+        the managers after it must still get every event"""
+
+        async def on_pipeline_start(self, ctx):  # noqa: ANN001
+            return None
+
+    Events.partial = EventsPartial
+
     class Store(ArtifactStore):
         async def save(self, node_id, data):  # noqa: ANN001
             rt.log(e='Save', r=rtm.CUR_RUN.get(), n=rtm.short(node_id), v=rt.to_term(data))
@@ -225,6 +238,8 @@ def build_chart(prog, rt, events=True, store=True, manager_cls=None):
         dag.run_manager = manager_cls
     Events, Store, Events2 = make_collab_classes(rt, prog)
     managers = [Events] if events else []
+    if events and 'evp' in (prog.get('collab') or {}):
+        managers.insert(0, Events.partial)
     if events and 'ev2' in (prog.get('collab') or {}):
         managers.append(Events2)
     chart = PipelineChart(
@@ -273,6 +288,20 @@ def ancestors(prog, nid, byid=None):
                 seen.add(d)
                 stack.append(d)
     return seen
+
+
+def mixed_failures(prog):
+    """some run plans both an Exception and a BaseException failure (for different nodes): which one the engine
+    meets first is up to the iteration order of its task set, so the model instance has no single successor there"""
+    for r in prog.get('runs', ()):
+        kinds = set()
+        for outs in list(r.get('plan', {}).values()) + [o for seq in r.get('plan_it', {}).values() for o in seq]:
+            for o in outs:
+                if isinstance(o, str) and o.startswith('raise:'):
+                    kinds.add(o.split(':', 1)[1] in ('B1', 'CE'))
+        if kinds == {True, False}:
+            return True
+    return False
 
 
 def is_ambiguous(prog):
